@@ -242,6 +242,8 @@ type C17Rerun struct {
 	// Triggers: number of triggers that fire one after the other before any re-run timer does (0 = 1)
 	Triggers int    `json:"triggers,omitempty"`
 	Pipeline string `json:"pipeline,omitempty"` // "" = incremental
+	// Restarts: the hub is stopped and started this many times between adding the job and its first trigger
+	Restarts int `json:"restarts,omitempty"`
 }
 
 func (c C17Rerun) String() string {
@@ -251,6 +253,9 @@ func (c C17Rerun) String() string {
 	}
 	if c.Pipeline != "" {
 		s += " pipeline=" + c.Pipeline
+	}
+	if c.Restarts > 0 {
+		s += fmt.Sprintf(" hubRestartsAfterAddJob=%d", c.Restarts)
 	}
 	return s
 }
@@ -279,6 +284,14 @@ func c17RerunRun(cfg C17Rerun) (viol []engine.Violation, outcome string, herr st
 	jb, jc, err := jw.newJob(h, JobSpec{Sources: []string{"S"}, Sink: "Z", JobType: jt, BatchSize: 1, OnError: on})
 	if err != nil {
 		return nil, "", "newJob: " + err.Error()
+	}
+	for i := 0; i < cfg.Restarts; i++ {
+		jw.Restart()
+		jb, err = jw.reloadJob(jc.ID)
+		if err != nil {
+			fail("job-lost", "after a restart the job cannot be loaded: "+err.Error())
+			return viol, "lost", ""
+		}
 	}
 	attempt := 0
 	inner := jb.pipeline.spec().sink
@@ -511,6 +524,13 @@ func init() {
 			}
 		}
 		rerun = append(rerun, C17Rerun{MaxRetries: 2, Delay: 0, Attempts: []string{"fail", "fail", "fail"}})
+		// the job was stored, then the hub was restarted (once, twice) before the trigger fires: same delay, same budget
+		for _, rs := range []int{1, 2} {
+			for _, sq := range [][]string{{"fail", "ok"}, {"fail", "fail", "fail"}} {
+				rerun = append(rerun, C17Rerun{MaxRetries: 2, Delay: 7, Attempts: sq, Restarts: rs})
+				rerun = append(rerun, C17Rerun{MaxRetries: 2, Delay: 0, Attempts: sq, Restarts: rs})
+			}
+		}
 		// the same for a fullsync job
 		for mr := 0; mr <= 3; mr++ {
 			for _, sq := range seqs {
